@@ -247,6 +247,11 @@ def solve_minor_model(
             assert len(present_muts) < 2
             if len(present_muts) == 1:
                 constraints[ref_m] += VA[a] - VKEEP[a][present_muts[0]][1]
+                # If the allele's own mutation is dropped, another mutation can be
+                # added at this locus; it does not contribute to `_` either.
+                for m in VNEW[a]:
+                    if m.pos == pos and m[1][:3] != "ins":
+                        constraints[ref_m] -= VNEW[a][m][1]
             else:
                 constraints[ref_m] += VA[a]
                 muts = [m for m in VNEW[a] if m.pos == pos and m[1][:3] != "ins"]
